@@ -1539,7 +1539,7 @@ verif_fmt()
             &rhs,
             (
                 gac.access_clause.comparator.0,
-                gac.access_clause.comparator.1 || gac.negation,
+                gac.access_clause.comparator.1 != gac.negation,
             ),
             verif_fmt(),
             gac.access_clause.custom_message.clone(),
